@@ -1,29 +1,28 @@
 package main
 
 import (
-	"bytes"
 	"fmt"
-	"go/ast"
-	"go/parser"
-	"go/printer"
-	"go/token"
 	"path/filepath"
 	"strings"
 )
 
 // SyncC17: the synchronisation skeletons of syncutil.OnceConstructor.Get,
-// ChanSemaphore.Acquire/Release and the two constructors (DESIGN.md §4, "gen-sync"): the
-// ordered, nested list of statements of each function in a canonical textual form, with
-// function literals expanded in place.  The Lean transition systems of C17 were written
-// against these lists; `theorem skel_* : Gen.SyncC17.x = Expected.x` makes any edit of the
-// synchronisation structure a broken proof obligation.
+// ChanSemaphore.Acquire/Release and the two constructors (DESIGN.md §4, "gen-sync"), in the
+// NORMAL FORM defined in nfskel.go: the tree of control paths of each function, each path
+// being the ordered list of its synchronisation events (channel operations, sync.Map calls,
+// calls of user-supplied functions and of interface methods, reads and writes of shared
+// cells, return), with package-local helpers, function literals and the objects stored in
+// the sync.Map inlined, operands given as symbolic values resolved through go/types, and
+// the cases of a select sorted.  The Lean transition systems of C17 were written against
+// these lists; `theorem skel_* : Gen.SyncC17.x = Expected.x` makes any edit of the
+// synchronisation structure a broken proof obligation, while extracting or inlining
+// helpers, renaming, inverting conditions with early returns, reordering select cases and
+// replacing the loader closure by a struct with methods leave the lists unchanged.
 //
-// Subset: blocks, if/else, select with send/receive/default clauses, send, assignment,
-// short variable declaration, var declaration, expression statement, return.  Anything else
-// (loops, go, defer, switch, labels, goto) is outside the subset and fails the translator.
+// Outside the subset (translator fails): see the header of nfskel.go.
 
 type skelReqC17 struct {
-	file string // path under the repo
+	file string // where the function is expected (documentation only)
 	recv string // receiver type name, "" for a plain function
 	name string
 	lean string // Lean definition name
@@ -35,186 +34,6 @@ var skelReqsC17 = []skelReqC17{
 	{"syncutil/sema.go", "", "NewChanSemaphore", "newChanSemaphore"},
 	{"syncutil/sema.go", "ChanSemaphore", "Acquire", "semaAcquire"},
 	{"syncutil/sema.go", "ChanSemaphore", "Release", "semaRelease"},
-}
-
-func recvTypeNameC17(fd *ast.FuncDecl) string {
-	if fd.Recv == nil || len(fd.Recv.List) == 0 {
-		return ""
-	}
-	t := fd.Recv.List[0].Type
-	for {
-		switch x := t.(type) {
-		case *ast.StarExpr:
-			t = x.X
-		case *ast.IndexExpr:
-			t = x.X
-		case *ast.IndexListExpr:
-			t = x.X
-		case *ast.ParenExpr:
-			t = x.X
-		case *ast.Ident:
-			return x.Name
-		default:
-			return "?"
-		}
-	}
-}
-
-type skelWalkerC17 struct {
-	out []string
-	err error
-}
-
-func (w *skelWalkerC17) emit(format string, a ...any) {
-	w.out = append(w.out, fmt.Sprintf(format, a...))
-}
-
-func (w *skelWalkerC17) fail(n ast.Node, what string) {
-	if w.err == nil {
-		w.err = fmt.Errorf("construct outside the skeleton subset: %s (%T)", what, n)
-	}
-}
-
-// exprStringC17 prints an expression in full (composite literals are not abbreviated) on one
-// line, with the bodies of function literals elided (they are expanded by funcLits).
-func exprStringC17(x ast.Expr) string {
-	var lits []*ast.FuncLit
-	var bodies []*ast.BlockStmt
-	ast.Inspect(x, func(n ast.Node) bool {
-		if fl, ok := n.(*ast.FuncLit); ok {
-			lits = append(lits, fl)
-			bodies = append(bodies, fl.Body)
-			return false
-		}
-		return true
-	})
-	for _, fl := range lits {
-		fl.Body = &ast.BlockStmt{}
-	}
-	var b bytes.Buffer
-	err := printer.Fprint(&b, token.NewFileSet(), x)
-	for i, fl := range lits {
-		fl.Body = bodies[i]
-	}
-	if err != nil {
-		return "<unprintable: " + err.Error() + ">"
-	}
-	return strings.Join(strings.Fields(b.String()), " ")
-}
-
-func exprsC17(xs []ast.Expr) string {
-	ss := make([]string, len(xs))
-	for i, x := range xs {
-		ss[i] = exprStringC17(x)
-	}
-	return strings.Join(ss, ", ")
-}
-
-// funcLits expands the function literals that occur in the expressions of one statement
-// (not descending into the literals themselves: their bodies are walked recursively).
-func (w *skelWalkerC17) funcLits(nodes ...ast.Node) {
-	for _, n := range nodes {
-		if n == nil {
-			continue
-		}
-		ast.Inspect(n, func(x ast.Node) bool {
-			if fl, ok := x.(*ast.FuncLit); ok {
-				w.emit("func{ %s", exprStringC17(fl.Type))
-				w.block(fl.Body)
-				w.emit("}func")
-				return false
-			}
-			return true
-		})
-	}
-}
-
-func (w *skelWalkerC17) block(b *ast.BlockStmt) {
-	for _, s := range b.List {
-		w.stmt(s)
-	}
-}
-
-func (w *skelWalkerC17) stmt(s ast.Stmt) {
-	switch x := s.(type) {
-	case *ast.BlockStmt:
-		w.emit("{")
-		w.block(x)
-		w.emit("}")
-	case *ast.IfStmt:
-		if x.Init != nil {
-			w.stmt(x.Init)
-		}
-		w.emit("if %s", exprStringC17(x.Cond))
-		w.funcLits(x.Cond)
-		w.block(x.Body)
-		if x.Else != nil {
-			w.emit("else")
-			w.stmt(x.Else)
-		}
-		w.emit("endif")
-	case *ast.SelectStmt:
-		w.emit("select{")
-		for _, c := range x.Body.List {
-			cc := c.(*ast.CommClause)
-			switch comm := cc.Comm.(type) {
-			case nil:
-				w.emit("default")
-			case *ast.SendStmt:
-				w.emit("case send %s <- %s", exprStringC17(comm.Chan), exprStringC17(comm.Value))
-			case *ast.ExprStmt:
-				w.emit("case recv %s", exprStringC17(comm.X))
-			case *ast.AssignStmt:
-				w.emit("case recv %s %s %s", exprsC17(comm.Lhs), comm.Tok, exprsC17(comm.Rhs))
-			default:
-				w.fail(cc, "select clause")
-			}
-			for _, b := range cc.Body {
-				w.stmt(b)
-			}
-		}
-		w.emit("}select")
-	case *ast.SendStmt:
-		w.emit("send %s <- %s", exprStringC17(x.Chan), exprStringC17(x.Value))
-		w.funcLits(x.Chan, x.Value)
-	case *ast.AssignStmt:
-		w.emit("assign %s %s %s", exprsC17(x.Lhs), x.Tok, exprsC17(x.Rhs))
-		for _, r := range x.Rhs {
-			w.funcLits(r)
-		}
-	case *ast.DeclStmt:
-		gd, ok := x.Decl.(*ast.GenDecl)
-		if !ok || gd.Tok != token.VAR {
-			w.fail(x, "declaration")
-			return
-		}
-		for _, sp := range gd.Specs {
-			vs := sp.(*ast.ValueSpec)
-			names := make([]string, len(vs.Names))
-			for i, n := range vs.Names {
-				names[i] = n.Name
-			}
-			ty := ""
-			if vs.Type != nil {
-				ty = exprStringC17(vs.Type)
-			}
-			w.emit("var %s %s = %s", strings.Join(names, ", "), ty, exprsC17(vs.Values))
-			for _, v := range vs.Values {
-				w.funcLits(v)
-			}
-		}
-	case *ast.ExprStmt:
-		w.emit("expr %s", exprStringC17(x.X))
-		w.funcLits(x.X)
-	case *ast.ReturnStmt:
-		w.emit("return %s", exprsC17(x.Results))
-		for _, r := range x.Results {
-			w.funcLits(r)
-		}
-	case *ast.EmptyStmt:
-	default:
-		w.fail(s, "statement")
-	}
 }
 
 func leanStrLitC17(s string) (string, error) {
@@ -242,45 +61,24 @@ func leanStrLitC17(s string) (string, error) {
 func genSyncC17(repo string) (string, error) {
 	var b strings.Builder
 	b.WriteString("namespace GolibsVerif.Gen.SyncC17\n\n")
-	parsed := map[string]*ast.File{}
-	fset := token.NewFileSet()
-	for _, req := range skelReqsC17 {
-		f, ok := parsed[req.file]
-		if !ok {
-			var err error
-			f, err = parser.ParseFile(fset, filepath.Join(repo, req.file), nil, parser.SkipObjectResolution)
-			if err != nil {
-				return "", err
-			}
-			parsed[req.file] = f
-		}
-		var found *ast.FuncDecl
-		for _, d := range f.Decls {
-			fd, isFn := d.(*ast.FuncDecl)
-			if isFn && fd.Name.Name == req.name && recvTypeNameC17(fd) == req.recv {
-				if found != nil {
-					return "", fmt.Errorf("%s: two declarations of %s.%s", req.file, req.recv, req.name)
-				}
-				found = fd
-			}
-		}
-		if found == nil || found.Body == nil {
-			return "", fmt.Errorf("%s: function %s.%s not found", req.file, req.recv, req.name)
-		}
-		w := &skelWalkerC17{}
-		w.emit("func %s", exprStringC17(found.Type))
-		w.block(found.Body)
-		if w.err != nil {
-			return "", fmt.Errorf("%s %s.%s: %v", req.file, req.recv, req.name, w.err)
-		}
+	roots := make([]sqRoot, len(skelReqsC17))
+	for i, req := range skelReqsC17 {
+		roots[i] = sqRoot{recv: req.recv, name: req.name}
+	}
+	skels, err := sqSkeletons(filepath.Join(repo, "syncutil"), roots)
+	if err != nil {
+		return "", fmt.Errorf("syncutil: %v", err)
+	}
+	for i, req := range skelReqsC17 {
+		out := skels[i]
 		fmt.Fprintf(&b, "/-- `%s`: %s%s -/\ndef %s : List String := [\n", req.file, map[bool]string{true: req.recv + ".", false: ""}[req.recv != ""], req.name, req.lean)
-		for i, ln := range w.out {
+		for j, ln := range out {
 			lit, err := leanStrLitC17(ln)
 			if err != nil {
 				return "", err
 			}
 			sep := ","
-			if i == len(w.out)-1 {
+			if j == len(out)-1 {
 				sep = ""
 			}
 			fmt.Fprintf(&b, "  %s%s\n", lit, sep)
